@@ -10,6 +10,7 @@ CONSTANTS
   Den = 1
   MaxSlots = 4
   GenN = 0
+  SubOrder = "sorted"
   UnionMode = "firstseen"
   Mode = "mc"
 INIT UnionInit
